@@ -328,6 +328,7 @@ class NegExpon(object):
 def mh_sim(*params, batch_size=1, random_state=None):
     LOG['sim'] += 1
     p = np.column_stack([np.asarray(x, dtype=float) for x in params])
+    LOG.setdefault('params', []).append(p.copy())          # what the simulator was handed, columns in MODEL parameter order
     return p.sum(axis=1)[:, None] + random_state.randn(batch_size, 2)
 
 
@@ -402,6 +403,7 @@ def run_mh(case):
     ctx = 'bound types=%r param_names=%r transform=%s n=%d n_sim_round=%d batch_size=%d sigma=%r seed=%d' % (types, param_names, case['transform'], n, nsr, bs, case['sigma'], case['seed'])
     LOG['sim'] = 0
     LOG['lik'] = []
+    LOG['params'] = []
     with must_not_raise(P, 'BSL.sample; ' + ctx):
         with np.errstate(all='ignore'):
             bsl = elfi.BSL(m, nsr, ['s0', 's1'], likelihood=stub_likelihood, seed=case['seed'], batch_size=bs)
@@ -420,6 +422,7 @@ def run_mh(case):
         ctx2 = 'SECOND sample(%d) call on the same object, params0=%r, after: %s' % (n2, params2.tolist(), ctx)
         LOG['sim'] = 0
         LOG['lik'] = []
+        LOG['params'] = []
         with must_not_raise(P, 'second BSL.sample; ' + ctx2):
             with np.errstate(all='ignore'):
                 with time_limit(300, 'C20:bsl-hangs', 'BSL.sample'):
@@ -444,6 +447,7 @@ def _judge_run(case, bsl, res, rs, n, params0, k, dists, bound, sigma, use_tr, n
             return float(sum(dists[i](th[i]) for i in range(k)))
     ref = np.zeros((n, k))
     ref[0] = params0
+    evaluated = [np.array(params0, dtype=float)]
     li = 0
     if not liks:
         raise Violation('C20:no-likelihood-evaluated', 'the likelihood was never evaluated; ' + ctx)
@@ -468,6 +472,7 @@ def _judge_run(case, bsl, res, rs, n, params0, k, dists, bound, sigma, use_tr, n
         if li >= len(liks):
             raise Violation('C20:too-few-simulation-rounds', 'iteration %d has a proposal %r with finite prior density but no synthetic likelihood was evaluated for it; %s' % (i, prop.tolist(), ctx))
         lpost_new = liks[li] + lp
+        evaluated.append(np.array(prop, dtype=float))
         li += 1
         logr = lpost_new - logpost
         if use_tr:
@@ -490,6 +495,19 @@ def _judge_run(case, bsl, res, rs, n, params0, k, dists, bound, sigma, use_tr, n
                         % (len(liks), li, n_out, ctx))
     if nsim_calls != li * (nsr // bs):
         raise Violation('C20:simulator-calls', 'simulator ran %d batches, expected %d rounds x %d; %s' % (nsim_calls, li, nsr // bs, ctx))
+    # every simulation round was run AT the point whose likelihood it estimates (columns of the chain follow param_names, the
+    # simulator's arguments follow the model's parameter order)
+    model_names = ['p%d' % i for i in range(k)]
+    chain_names = list(param_names) if param_names is not None else model_names
+    per_round = nsr // bs
+    for e, pt in enumerate(evaluated):
+        want = np.array([pt[chain_names.index(nm)] for nm in model_names])
+        for c in range(per_round):
+            gotp = np.asarray(LOG['params'][e * per_round + c], dtype=float)
+            if gotp.shape[1] != k or not np.allclose(gotp, want[None, :], rtol=1e-12, atol=1e-12):
+                raise Violation('C20:simulated-at-another-point',
+                                'likelihood evaluation %d is for the point %r (parameters %r) but its simulator batch %d received %r for the model parameters %r; %s'
+                                % (e, pt.tolist(), chain_names, c, gotp[0].tolist(), model_names, ctx))
     if chain.shape != ref.shape or not np.allclose(chain, ref, rtol=1e-8, atol=1e-10):
         kbad = int(np.flatnonzero(~np.all(np.isclose(chain, ref, rtol=1e-8, atol=1e-10), axis=1))[0])
         raise Violation('C20:chain-differs-from-metropolis-hastings',
